@@ -209,7 +209,7 @@ Definition cell_to_kind (k : kind) (c : cell) : res cell :=
   match k, c with
   | KF, CNum q => Ok (CNum q) | KF, CNaN => Ok CNaN | KF, CBool b => Ok (CNum (if b then 1 else 0)%Q)
   | KF, _ => Err ValueError
-  | KI, CNum q => Ok (CNum (inject_Z (Qfloor q))) (* unsafe cast truncates; guarded by generators *)
+  | KI, CNum q => Ok (CNum (inject_Z (if Qle_bool 0 q then Qfloor q else Qceiling q))) (* C cast: truncation *)
   | KI, CBool b => Ok (CNum (if b then 1 else 0)%Q)
   | KI, CNaN => Err ValueError
   | KI, _ => Err ValueError
@@ -268,3 +268,25 @@ Definition setitem (f : form) (tol : tolv) (r : rhs) (cast : bool) (a : darr) : 
   let k := if cast then cast_kind (kd (vals a)) (rhs_kind r) else kd (vals a) in
   let! v := np_set_outer ps r k (vals a) in
   Ok (mkarr (axes a) v (attrs a)).
+
+(* a[mask] = v with a full-shape boolean mask (row-major list of booleans) *)
+Fixpoint mask_rank (m : list bool) (i : nat) : nat :=   (* number of true entries before position i *)
+  match m, i with
+  | b :: t, S j => (if b then 1 else 0) + mask_rank t j
+  | _, _ => 0
+  end.
+Definition setmask (m : list bool) (r : rhs) (cast : bool) (a : darr) : res darr :=
+  let v := vals a in
+  if negb (List.length m =? prod (sh v)) then Err IndexError else
+  let k := if cast then cast_kind (kd v) (rhs_kind r) else kd v in
+  let ntrue := List.length (filter (fun b => b) m) in
+  if match r with RScalar _ _ => true
+                | RArr w => match sh w with [n] => (n =? ntrue) || (n =? 1) | [] => true | _ => false end end then
+    let! newdat := mapM (fun p => let '(i, (b, c)) := p in
+                           if (b : bool) then cell_to_kind k (match r with
+                                                     | RScalar x _ => x
+                                                     | RArr w => nth (if List.length (dat w) =? 1 then 0 else mask_rank m i) (dat w) CNaN end)
+                           else cell_to_kind k c)
+                        (combine (seq 0 (List.length m)) (combine m (dat v))) in
+    Ok (mkarr (axes a) {| sh := sh v; dat := newdat; kd := k |} (attrs a))
+  else Err ValueError.
